@@ -239,22 +239,36 @@ class Ctx:
             return None, o + e
         return os.path.join(self.tmp, out), o + e
 
-    def model_exe(self):
-        p = os.path.join(LEAN, '.lake', 'build', 'bin', 'librfn_model')
-        return p
+    # One executable per model engine (lean/Exe<Engine>.lean): a source change that breaks the translation / model of
+    # one unit must not take the model executables of unrelated properties down with it.
+    ENGINES_OF = {'C01': ['sched'], 'C02': ['sched'], 'C03': ['sched', 'isr'], 'C04': ['messageq-conc'], 'C05': ['ring'], 'C06': ['isr'],
+                  'C07': ['hb'], 'C08': ['pt'], 'C09': ['list'], 'C10': ['messageq'], 'C11': ['bintree'], 'C12': ['pack'], 'C13': ['wav'],
+                  'C14': ['wav'], 'C15': ['console'], 'C16': ['pure-bits'], 'C17': ['pure-rand'], 'C18': ['hex'], 'C19': ['pure-rotenc'], 'C20': ['mlog']}
 
-    def build_model(self):
-        ok, log, errs = self.lake_build(['librfn_model'])
+    @staticmethod
+    def exe_target(engine):
+        return 'librfn_model_' + engine.replace('-', '_')
+
+    def model_exe(self, engine):
+        return os.path.join(LEAN, '.lake', 'build', 'bin', self.exe_target(engine))
+
+    def build_model(self, engines=None):
+        engines = engines or self.ENGINES_OF.get(self.pid, [])
+        ok, log, errs = self.lake_build([self.exe_target(e) for e in engines])
         if not ok:
-            names = [self.enclosing_decl(f, ln) for (f, ln, _) in errs] or ['librfn_model build failed']
+            names = [self.enclosing_decl(f, ln) for (f, ln, _) in errs] or ['model executable build failed']
             self.broken += ['model driver does not build: ' + n for n in names[:3]]
             self.notes.append(log[-1500:])
         return ok
 
     def run_model(self, args, text, timeout=600):
-        rc, out, err = sh([self.model_exe()] + list(args), input=text, timeout=timeout)
+        args = list(args)
+        exe = self.model_exe(args[0])
+        if not os.path.exists(exe) and not self.build_model([args[0]]):
+            raise Infra(f'model executable for engine {args[0]} is not built')
+        rc, out, err = sh([exe] + args[1:], input=text, timeout=timeout)
         if rc != 0:
-            raise Infra(f'librfn_model {args} rc={rc}: {err[-800:]}')
+            raise Infra(f'{self.exe_target(args[0])} {args[1:]} rc={rc}: {err[-800:]}')
         return out
 
     # ---------------------------------------------------------------- reporting
